@@ -169,6 +169,12 @@ NonVacuous(u) ==
 R2 == << Null, V("bool", <<0>>), V("bool", <<1>>), FNInf, IM1, FN1_5, I0, FNZero, F1, I1, FNaNq,
          T(<<>>), T(<<0>>), T(<<97>>), T(<<97, 0>>), T(<<97, 98>>), B(<<>>), B(<<0>>), B(<<255>>), D(0) >>
 R3 == << Null, I0, FPZero, I1, T(<<>>), T(<<0>>), T(<<97>>), B(<<255>>) >>
+(* self-delimiting containers as key columns: the next column must not be taken for their content *)
+RC == << Null, I1, Arr(<<>>), Arr(<<Null>>), JA(<<>>), JA(<<JNull>>), JO(<<>>), JO(<<KV(<<>>, J1)>>), JO(<<KV(<<97>>, JNull)>>),
+         Vec(<<>>), Vec(<<G1>>) >>
+TupC == { <<i, j>> : i \in 1..Len(RC), j \in 1..Len(RC) }
+RowC(ix) == <<RC[ix[1]], RC[ix[2]]>>
+RankC(ix) == Cardinality({jx \in TupC : TupCmp(RowC(jx), RowC(ix)) < 0})
 Tup2 == { <<i, j>> : i \in 1..Len(R2), j \in 1..Len(R2) }
 Tup3 == { <<i, j, k>> : i \in 1..Len(R3), j \in 1..Len(R3), k \in 1..Len(R3) }
 Row2(ix) == <<R2[ix[1]], R2[ix[2]]>>
@@ -191,6 +197,7 @@ PtRec(i) == [k |-> "pt", i |-> i, v |-> Pts[i], canon |-> Canon(Pts[i]), canonz 
              same |-> [j \in 1..N |-> IF SameKeyAllowed(Pts[i], Pts[j]) THEN 1 ELSE 0]]
 T2Rec(ix) == [k |-> "t2", ix |-> ix, cols |-> Row2(ix), rank |-> Rank2(ix)]
 T3Rec(ix) == [k |-> "t3", ix |-> ix, cols |-> Row3(ix), rank |-> Rank3(ix)]
+TCRec(ix) == [k |-> "tc", ix |-> ix, cols |-> RowC(ix), rank |-> RankC(ix)]
 
 CONSTANT Sel       \* the parts to run (all: 0..10)
 VARIABLES part, done
@@ -205,7 +212,8 @@ Next == /\ done = FALSE /\ done' = TRUE /\ part' = part
             [] part = 2 -> Assert(RankOK(0), "Cmp is not a total preorder")
             [] part = 3 -> /\ \A i \in 1..N : PrintT(<<"T", ToJson(PtRec(i))>>)
                            /\ PrintT(<<"T", ToJson([k |-> "prefixes", decodable |-> Decodable])>>)
-            [] part = 4 -> Assert(TupRankOK(0), "tuple ranks do not represent TupCmp")
+            [] part = 4 -> /\ Assert(TupRankOK(0), "tuple ranks do not represent TupCmp")
+                           /\ \A ix \in TupC : PrintT(<<"T", ToJson(TCRec(ix))>>)
             [] part \in 5..6 -> \A ix \in {jx \in Tup2 : jx[1] % 2 = part - 5} : PrintT(<<"T", ToJson(T2Rec(ix))>>)
             [] part \in 7..10 -> \A ix \in {jx \in Tup3 : jx[1] % 4 = part - 7} : PrintT(<<"T", ToJson(T3Rec(ix))>>)
 Spec == Init /\ [][Next]_<<part, done>>
